@@ -177,6 +177,11 @@ theorem wrapper_seq_params (n : ℕ) (x : K) :
     simp [Generated.C08.legendreSeqParams, Generated.C08.qconSeqOut, Generated.C08.qconSeqAB, Generated.C08.qconSeqX,
       Generated.C07.legendre, Generated.C07.qcon, gen_jacobi, Model.C07.legendre, Model.C07.qcon, pow_two]
 
+/-- no `*_seq` routine (nor a module-local helper it calls) keeps a module-level cache of values computed from the coordinate array
+    under a key that omits the array's dtype (read off the source: writes to module-level containers reachable from the `*_seq`
+    functions); together with `seq_rows_hold_floats` this is the static side of "the answer does not depend on earlier calls" -/
+theorem seq_no_dtype_blind_cache : Generated.C08.seqRoutinesHaveNoDtypeBlindCache = true := by decide
+
 /-- **rows are never truncated**: whatever the kind of the coordinate dtype (bool, int, float, complex), the `out` array of every
     value `*_seq` can hold floating-point values (read from the `dtype=` of each allocation in the source) -/
 theorem seq_rows_hold_floats (k : DKind) :
